@@ -136,7 +136,7 @@ def tla_desc_to_py(d: dict) -> dict:
                       "defaults": {p: v for p, v in f["defaults"]}, "bound": {p: v for p, v in f["bound"]},
                       "mapspec": ms_string(f["ms"]) if f["has_ms"] else None,
                       "internal_shape": list(f.get("internal", [])), "cache": bool(f.get("cache", False)),
-                      "retnone": bool(f.get("retnone", False)), "rescpus": f.get("rescpus") or "", "impl": f.get("impl") or "", "picker": bool(f.get("picker", False)), "elemscope": bool(f.get("elemscope", False)), "pyname": f.get("pyname") or "", "intshape": bool(f.get("intshape", False)), "rettuple": bool(f.get("rettuple", False))})
+                      "retnone": bool(f.get("retnone", False)), "rescpus": f.get("rescpus") or "", "impl": f.get("impl") or "", "picker": bool(f.get("picker", False)), "elemscope": bool(f.get("elemscope", False)), "pyname": f.get("pyname") or "", "intshape": bool(f.get("intshape", False)), "rettuple": bool(f.get("rettuple", False)), "hide_ms": bool(f.get("hide_ms", False))})
     return {"funcs": funcs}
 
 
